@@ -401,6 +401,11 @@ def h_instantiate(kind, n_children):
                 isf = res.fields["is_false"]
                 ctx.check("Variable._instantiate::truth-value-is-that-of-the-concrete-result",
                           z3.BoolVal(False) if t is None else (z3.BoolVal(isf) if isinstance(isf, bool) else isf.t) == z3.Not(t))
+            # the rule selectors read an operand's truth off the NODE: a condition records the flag it yields before it yields
+            nf, rf = me.fields.get("_is_false_"), res.fields["is_false"]
+            same_flag = (nf is rf) or (isinstance(nf, SBool) and isinstance(rf, SBool) and z3.eq(z3.simplify(nf.t), z3.simplify(rf.t))) or \
+                (isinstance(nf, bool) and isinstance(rf, bool) and nf == rf)
+            ctx.check("Variable._instantiate::as-a-condition-the-node-records-the-flag-it-yields", z3.BoolVal(bool(same_flag)), detail=f"node {nf!r}, result {rf!r}")
             b = res.fields["bindings"]
             ok_b = all(b.vals.get(key_of(children[k].fields["_id_"])) is combo[k] for k in names) and key_of(99) in b.vals
             # every argument is evaluated under ALL the bindings of the previous ones (also what a previous argument bound on its
